@@ -7,6 +7,8 @@ CONSTANTS
   MaxTs = 8
   MaxRepl = 7
   MaxWrites = 6
+  RecycleAge = 0
+  Window = 0
   MergeRestamp = TRUE
   NoSkew = TRUE
   ArmQuota = 0
